@@ -53,7 +53,7 @@ META = {
                           "explicit_bzero", "v_memcpy_same_ok"],
 }
 
-KF = {} if os.environ.get("C20_NO_KF") else {"KF_REQLINE_ORIGIN_SCHEME": None, "KF_REQLINE_AUTH_QUERY": None}   # blocking assumptions for reported findings (see findings/)
+KF = {}   # both findings were repaired in /repo (known_findings.json: fixed)   # blocking assumptions for reported findings (see findings/)
 
 
 def cstr(s):
@@ -349,12 +349,9 @@ def sec_jobs(tier):
             ("ctrl-pair", [("Host", " a%b%bc")], "", "R", False),
             ("dup-host-sym", [("Host", " a"), ("hOS%t", " b")], "", "R", False),
             ("ctrl-end", [("Host", " a")], "%b", "R", False),
-            ("none-val5", [("Host", " %v%v%v%v%v"), (CL, "%w%d%d")], "", "GET /%p HTTP/1.1", False),
             ("case-host", [("%cHos%ct", " 1"), ("host", "b")], "", "R", False),
         ]
     out = [sec_job(n, f, end=e, line=l, name_token_only=t, timeout=300 if q else None) for n, f, e, l, t in S]
-    if not q:
-        out.append(sec_job("dup-host-fallback", [("Host", " a"), ("hOS%t", " b")], lcb_fallback=True))
     return out
 
 
@@ -413,4 +410,8 @@ def query_jobs(tier):
 
 
 def jobs(tier):
-    return reqline_jobs(tier) + respline_jobs(tier) + hdr_jobs(tier) + sec_jobs(tier) + query_jobs(tier)
+    out = reqline_jobs(tier) + respline_jobs(tier) + hdr_jobs(tier) + sec_jobs(tier) + query_jobs(tier)
+    for j in out:       # typical job: 1..40 s on an idle machine; generous cap because the box is shared (load 60 seen)
+        if tier == "quick" and not j.get("timeout"):
+            j["timeout"] = 400
+    return out
